@@ -538,6 +538,28 @@ func (fc *FuncCtx) formula0(v ssa.Value) *bddNode {
 		}
 	case *ssa.Call:
 		return fc.callFormula(x)
+	case *ssa.Lookup:
+		// set membership spelled as a bool-valued constant package-level table (var known = map[string]bool{k: true, ...}):
+		// the index equals one of the keys that map to true (a missing key reads as false)
+		if !x.CommaOk && isBoolType(x.Type()) {
+			if ents, ok := fc.tableEntries(x); ok {
+				acc := B.False
+				okAll := true
+				for _, e := range ents {
+					c, isC := e.v.(*ssa.Const)
+					if !isC || c.Value == nil {
+						okAll = false
+						break
+					}
+					if c.Value.ExactString() == "true" {
+						acc = B.Or(acc, fc.eqFormula(x, x.Index, e.k))
+					}
+				}
+				if okAll {
+					return acc
+				}
+			}
+		}
 	case *ssa.Extract:
 		switch t := x.Tuple.(type) {
 		case *ssa.TypeAssert:
@@ -744,13 +766,13 @@ func (fc *FuncCtx) eqFormula(in ssa.Instruction, a, b ssa.Value) *bddNode {
 	if f, ok := fc.tableLookupEq(in, b, a); ok {
 		return f
 	}
-	// phi operands: expand by gating
-	if ph, ok := a.(*ssa.Phi); ok {
+	// phi operands: expand by gating (a phi that is the "first non-empty of two" idiom is one value with a name of its own)
+	if ph, ok := a.(*ssa.Phi); ok && fc.firstSetPhi(ph) == "" {
 		if f, ok := fc.gated(ph, func(e ssa.Value) *bddNode { return fc.eqFormula(in, e, b) }); ok {
 			return f
 		}
 	}
-	if ph, ok := b.(*ssa.Phi); ok {
+	if ph, ok := b.(*ssa.Phi); ok && fc.firstSetPhi(ph) == "" {
 		if f, ok := fc.gated(ph, func(e ssa.Value) *bddNode { return fc.eqFormula(in, a, e) }); ok {
 			return f
 		}
@@ -1354,7 +1376,14 @@ func (fc *FuncCtx) indexFound(v ssa.Value, depth int, sawNeg, sawIdx *bool) (*bd
 			*sawNeg = true
 			return B.False, true
 		}
+		// a branch that needs no match records a position that is not negative (idx = 0, idx = len(xs))
+		if c.Value != nil && c.Value.Kind() == constant.Int && constant.Sign(c.Value) >= 0 {
+			return B.True, true
+		}
 		return nil, false
+	}
+	if lenArg(v) != nil {
+		return B.True, true
 	}
 	if nonNegInduction(v) {
 		*sawIdx = true
